@@ -33,6 +33,8 @@ enum Op {
     FinInp(usize, bool),
     Extract,
     SerDe,
+    /// what a combiner does: signer-side fields come back onto an input that is already final
+    Merge(usize),
 }
 
 struct InputPlan {
@@ -89,9 +91,18 @@ fn build_setup(rng: &mut Rng, world: &World, tier: Tier) -> Option<Setup> {
     let mut tx_in = vec![];
     let mut prevouts = vec![];
     let mut prev_txs = vec![];
+    // hostile transaction shapes: version 1 (BIP-68 off: older() cannot be met whatever the
+    // sequence says) and final sequences (nLockTime off: after() cannot be met)
+    let version = if rng.chance(1, 4) { 1 } else { 2 };
+    let final_seq = rng.chance(1, 8);
     for (i, ip) in inputs.iter().enumerate() {
         let (_, o) = ip.case.timelocks();
-        let seq = o.iter().cloned().filter(|v| v & (1 << 22) == 0).max().unwrap_or(0xffff_fffd);
+        let mut seq = o.iter().cloned().filter(|v| v & (1 << 22) == 0).max().unwrap_or(0xffff_fffd);
+        if final_seq {
+            seq = 0xffff_ffff;
+        } else if !o.is_empty() && rng.chance(1, 6) {
+            seq = *rng.pick(&[seq.wrapping_sub(1), seq | (1 << 31), seq | (1 << 22), 0]);
+        }
         let utxo = TxOut { value: Amount::from_sat(100_000 + i as u64), script_pubkey: ScriptBuf::from_bytes(ip.target.spk.clone()) };
         let vout = rng.below(3) as u32;
         let mut outs = vec![];
@@ -109,7 +120,7 @@ fn build_setup(rng: &mut Rng, world: &World, tier: Tier) -> Option<Setup> {
         prev_txs.push(Some(prev));
     }
     let tx = Transaction {
-        version: transaction::Version(2),
+        version: transaction::Version(version),
         lock_time: absolute::LockTime::from_consensus(lt),
         input: tx_in,
         output: vec![TxOut { value: Amount::from_sat(50_000), script_pubkey: ScriptBuf::from_bytes(vec![0x6a, 0x01, 0x14]) }],
@@ -149,6 +160,31 @@ fn apply(world: &World, s: &Setup, psbt: &mut Psbt, op: &Op) -> Outcome {
             }
         }
         Op::AddSig(i, _) | Op::AddPre(i, _) if is_final(&psbt.inputs[*i]) => Outcome::Ok,
+        Op::Merge(i) => {
+            if !is_final(&psbt.inputs[*i]) {
+                return Outcome::Ok;
+            }
+            let fin = (psbt.inputs[*i].final_script_sig.take(), psbt.inputs[*i].final_script_witness.take());
+            for id in s.inputs[*i].case.key_ids() {
+                apply(world, s, psbt, &Op::AddSig(*i, id));
+            }
+            for p in s.inputs[*i].case.pre_ids() {
+                apply(world, s, psbt, &Op::AddPre(*i, p));
+            }
+            match &s.inputs[*i].target.paths[0].wrap {
+                crate::target::Wrap::P2sh { redeem } => psbt.inputs[*i].redeem_script = Some(ScriptBuf::from_bytes(redeem.clone())),
+                crate::target::Wrap::P2wsh { script } => psbt.inputs[*i].witness_script = Some(ScriptBuf::from_bytes(script.clone())),
+                crate::target::Wrap::P2shP2wsh { script, redeem } => {
+                    psbt.inputs[*i].witness_script = Some(ScriptBuf::from_bytes(script.clone()));
+                    psbt.inputs[*i].redeem_script = Some(ScriptBuf::from_bytes(redeem.clone()));
+                }
+                crate::target::Wrap::P2shP2wpkh { redeem } => psbt.inputs[*i].redeem_script = Some(ScriptBuf::from_bytes(redeem.clone())),
+                _ => {}
+            }
+            psbt.inputs[*i].final_script_sig = fin.0;
+            psbt.inputs[*i].final_script_witness = fin.1;
+            Outcome::Ok
+        }
         Op::AddSig(i, key_id) => {
             let ip = &s.inputs[*i];
             let spend = Spend { tx: s.tx.clone(), prevouts: s.prevouts.clone(), idx: *i };
@@ -401,7 +437,7 @@ fn check_update_fields(rep: &mut Report, case: u64, world: &World, s: &Setup, ps
 
 pub fn run(cfg: &RunCfg, rep: &mut Report) {
     let world = World::new(cfg.seed);
-    let total = cfg.n_cases(1_500, 40_000);
+    let total = cfg.n_cases(12_000, 300_000);
     let max_ops = if cfg.tier == Tier::Thorough { 20 } else { 14 };
     for i in cfg.cases(total) {
         let mut rng = cfg.case_rng(i);
@@ -437,18 +473,23 @@ pub fn run(cfg: &RunCfg, rep: &mut Report) {
         let n_extra = 2 + rng.below(6);
         for _ in 0..n_extra {
             let pos = rng.below(rest.len() + 1);
-            let op = match rng.below(8) {
+            let op = match rng.below(10) {
                 0 | 1 => Op::FinAll(rng.coin()),
                 2 | 3 | 4 => Op::FinInp(rng.below(n + 1), rng.coin()),
                 5 => Op::Extract,
+                6 | 7 => Op::Merge(rng.below(n)),
                 _ => Op::SerDe,
             };
             rest.insert(pos, op);
         }
         rest.push(Op::FinAll(false));
+        if rng.coin() {
+            rest.push(Op::Merge(rng.below(n)));
+        }
+        rest.push(Op::FinInp(rng.below(n), rng.coin()));
         rest.push(Op::FinAll(false));
         rest.push(Op::Extract);
-        rest.truncate(max_ops.max(field_ops.len() + 3));
+        rest.truncate(max_ops.max(field_ops.len() + 5));
         ops.extend(rest);
 
         let mut psbt = fresh_psbt(&s);
@@ -475,7 +516,7 @@ pub fn run(cfg: &RunCfg, rep: &mut Report) {
                 let was = is_final(&before[j]);
                 let now = is_final(&psbt.inputs[j]);
                 // only library operations are judged: the harness itself adds fields in AddSig/AddPre
-                let lib_op = !matches!(op, Op::AddSig(..) | Op::AddPre(..));
+                let lib_op = !matches!(op, Op::AddSig(..) | Op::AddPre(..) | Op::Merge(..));
                 if was && lib_op && psbt.inputs[j] != before[j] {
                     rep.violation(i, "C14:final-input-altered".into(), format!("input {} was final and changed by {:?}: {}", j, op, describe(&s, &hist)));
                 }
@@ -517,6 +558,9 @@ pub fn run(cfg: &RunCfg, rep: &mut Report) {
                     err_fin += 1;
                     for j in 0..n {
                         let named = idx.contains(&Some(j));
+                        if named && is_final(&before[j]) {
+                            rep.violation(i, "C14:not-idempotent:finalize".into(), format!("input {} was already final and is reported as failing by {:?}: {}", j, op, describe(&s, &hist)));
+                        }
                         if named == is_final(&psbt.inputs[j]) && !is_final(&before[j]) {
                             rep.violation(i, "C14:finalize-error-list-inconsistent".into(), format!("input {}: named in the error list = {}, final afterwards = {}: {}", j, named, is_final(&psbt.inputs[j]), describe(&s, &hist)));
                         }
@@ -527,7 +571,12 @@ pub fn run(cfg: &RunCfg, rep: &mut Report) {
                         rep.violation(i, "C14:finalize-ok-but-input-not-final".into(), describe(&s, &hist));
                     }
                 }
-                (Op::FinInp(_, _), Outcome::Err(_)) => err_fin += 1,
+                (Op::FinInp(k, _), Outcome::Err(_)) => {
+                    err_fin += 1;
+                    if *k < n && is_final(&before[*k]) {
+                        rep.violation(i, "C14:not-idempotent:finalize_inp".into(), format!("finalizing input {} again, which was already final, returned an error: {}", k, describe(&s, &hist)));
+                    }
+                }
                 (Op::Update(k), Outcome::Ok) => check_update_fields(rep, i, &world, &s, &psbt, *k),
                 (Op::Update(k), Outcome::Err(_)) => {
                     rep.violation(i, "C14:update-refused".into(), format!("update_input_with_descriptor({}) refused a matching utxo: {}", k, describe(&s, &hist)));
